@@ -247,6 +247,8 @@ pub struct Env {
     pub refs: Option<RefSession>,
     pub pending_join: Option<PendingJoin>,
     pub sent_down: Vec<Vec<u8>>,
+    /// number of delivered frames the property statements are silent about (oracles stand down)
+    pub unspecified_seen: u64,
     pub delivered: Vec<Delivered>,
     pub trace: Vec<Ev>,
     pub now_ms: u64,
@@ -288,6 +290,7 @@ impl Env {
             refs,
             pending_join: None,
             sent_down: Vec::new(),
+            unspecified_seen: 0,
             delivered: Vec::new(),
             trace: Vec::new(),
             now_ms: 1000,
@@ -589,6 +592,9 @@ impl Env {
         let verdict = self.judge(&bytes, rf, class_a);
         let n = bytes.len().min(buf.len());
         buf[..n].copy_from_slice(&bytes[..n]);
+        if matches!(verdict, Verdict::Unspecified(_)) {
+            self.unspecified_seen += 1;
+        }
         let at = self.trace.len();
         self.push(Ev::Deliver { win, len: bytes.len(), verdict: verdict.short(), spec: spec.kind() });
         self.now_ms += 1;
